@@ -143,6 +143,9 @@ const SALT: [&str; 22] = [
     "é", "ñ", "ß", "İ", "ǅ", "ﬁ", "e\u{301}", "a\u{308}\u{323}", "日本語", "数字", "😀", "👨‍👩‍👧", "\u{202e}", "\u{0}", "\u{200b}", "١٢٣", "४२", "123", "3", "०", "Ω", "ı",
 ];
 
+/// characters that look like the two separators the tokenizer special-cases (hyphen, apostrophe) but are not them
+pub const HYPHEN_LIKE: [&str; 12] = ["\u{2010}", "\u{2011}", "\u{2012}", "\u{2013}", "\u{2014}", "\u{2212}", "\u{ad}", "\u{fe63}", "\u{ff0d}", "\u{2019}", "\u{2bc}", "\u{ff07}"];
+
 pub fn random_case(rng: &mut Rng, w: &str) -> String {
     match rng.below(4) {
         0 => w.to_uppercase(),
@@ -183,12 +186,34 @@ pub fn hostile_text(rng: &mut Rng, lex: &Lexicon, max_words: usize) -> String {
                     }
                 }
                 3 | 4 => w = random_case(rng, &w),
+                5 => {
+                    // a hyphenated / multi-word number whose joiner is replaced by a look-alike character
+                    let n = random_number(rng, 3);
+                    let p = crate::spell::cardinal(lex.code, n);
+                    let j = rng.pick_str(&HYPHEN_LIKE);
+                    w = p.replace('-', j).replace(' ', j);
+                }
+                6 => {
+                    if w.contains('-') {
+                        w = w.replace('-', rng.pick_str(&HYPHEN_LIKE));
+                    } else {
+                        w.push_str(rng.pick_str(&HYPHEN_LIKE));
+                    }
+                }
                 _ => {}
             }
         }
         s.push_str(&w);
         if i + 1 < toks.len() || rng.chance(1, 5) {
-            match rng.below(24) {
+            match rng.below(28) {
+                24 => s.push_str("- "),
+                25 => s.push_str("-, "),
+                26 => s.push_str(rng.pick_str(&HYPHEN_LIKE)),
+                27 => {
+                    s.push(' ');
+                    s.push_str(rng.pick_str(&HYPHEN_LIKE));
+                    s.push(' ');
+                }
                 0 => s.push_str("-"),
                 1 => s.push_str("'"),
                 2 => s.push_str(" - "),
